@@ -180,6 +180,14 @@ def _structure_job(args):
                     Hu[1:, 0] *= 2.0 ** e_
                     Hu[0, 1:] *= 2.0 ** e_
                     herm_measure(rec, "underflow-subcolumn", {"structure": "integer Hermitian, first off-diagonal row/column scaled by 2^%d" % e_, "n": n}, Hu, spec(Hu))
+                # only the pivot entry (1,0) / (0,1) is that small, the rest of the first row / column is O(1)
+                for e_ in (-505, -520, -530, -536, -540, -545, -1074):
+                    Hp = Hh.copy()
+                    if not np.any(Hp[1, 0]):
+                        Hp[1, 0] = [1.0, -2.0, 1.0, 3.0]
+                    Hp[1, 0] *= 2.0 ** e_
+                    Hp[0, 1] = Hp[1, 0] * [1, -1, -1, -1]
+                    herm_measure(rec, "underflow-pivot", {"structure": "integer Hermitian, entries (1,0), (0,1) scaled by 2^%d" % e_, "n": n}, Hp, spec(Hp))
             v = rng.standard_normal((n, 1, 4))
             R1 = omul(v, oherm(v))
             herm_measure(rec, "low-rank", {"structure": "rank one", "v": v.tolist()}, R1, spec(R1))
